@@ -11,6 +11,9 @@ META = {
     "level": "Decides: (R1) intersects() is syntactically symmetric under swapping its operands (a necessary condition of order-independence: breaking the mirror of any one arm breaks symmetry for the operator pair that arm serves); (R2) every operator of valid_ops plus '=*' and '' is dispatched before the final NotImplementedError; (R3) the glob arms assume the same =* semantics that matching implements; (R4) the slot/sub-slot/repository/USE pre-checks compare like with like. Does NOT decide completeness or witnesses for concrete atoms. (R5) the USE conflict test compares the tokens as written, use-dep default markers included.",
     "note": "VersionMatch(...).match and str.startswith are opaque; symmetry is syntactic modulo and/or/==/^ commutativity",
 }
+META["technique"] += "; " + 'dominator rule on intersects(): conflict checks dominate every non-False verdict; direction rule for the glob-revision shortcut'
+META["level"] += " Added after the second round of independent changes: " + '(R6) every return of intersects() other than `return False` is dominated by the key, slot, sub-slot, repository and USE conflict checks; (R3) the `glob carries a revision -> nothing else matches` shortcut only serves upper-bounded ranges.'
+META["technique"] += "; " + 'generic pack G on the anchored files (optional-flag shift, closures outliving a loop iteration, single-pass iterables consumed twice, %-templates built from data, in-place writes to class-level / memoised objects, generators mutating what they yielded, memo keys that are projections)'
 
 
 def is_noop(st):
